@@ -16,6 +16,7 @@ import (
 	"fmt"
 	"log"
 	"testing"
+	"time"
 )
 
 type h9Scenario struct {
@@ -113,8 +114,86 @@ func h9Run(s h9Scenario) (err error) {
 	return nil
 }
 
+// Close called concurrently (C12: "Close may be called repeatedly and concurrently", and AFTER Close
+// returns everything is stopped): while one Close is inside a node's cancel function, a second Close must
+// not return - for its caller, too, "Close returned" has to mean "every node is closed". No timing is
+// needed for the verdict on correct code: there the second call cannot return before the gate opens.
+func h9ConcurrentClose(n int) (err error) {
+	defer func() {
+		if r := recover(); r != nil {
+			err = fmt.Errorf("C12: panic: %v", r)
+		}
+	}()
+	m := NewRawManager(WithNoConnect())
+	var nodes []*RawNode
+	entered, gate := make(chan struct{}), make(chan struct{})
+	for i := 0; i < n; i++ {
+		nd, e := NewRawNodeWithID(fmt.Sprintf("127.0.0.1:%d", 9200+i), uint32(20+i))
+		if e != nil {
+			return fmt.Errorf("setup: %v", e)
+		}
+		if e := m.AddNode(nd); e != nil {
+			return fmt.Errorf("C14: AddNode: %v", e)
+		}
+		nodes = append(nodes, nd)
+	}
+	calls := 0
+	nodes[0].cancel = func() {
+		calls++
+		if calls == 1 {
+			close(entered)
+			<-gate
+		}
+	}
+	first, second := make(chan struct{}), make(chan struct{})
+	go func() { m.Close(); close(first) }()
+	select {
+	case <-entered:
+	case <-time.After(3 * time.Second):
+		return fmt.Errorf("C12: Close never reached the first node's cancel function")
+	}
+	go func() { m.Close(); close(second) }()
+	early := false
+	select {
+	case <-second:
+		early = true
+	case <-time.After(30 * time.Millisecond):
+	}
+	if early {
+		close(gate)
+		<-first
+		return fmt.Errorf("C12: a second, concurrent Close returned while the first was still closing node %d (of %d): for its caller Close has returned and the nodes are not closed", nodes[0].id, n)
+	}
+	close(gate)
+	for _, c := range []chan struct{}{first, second} {
+		select {
+		case <-c:
+		case <-time.After(3 * time.Second):
+			return fmt.Errorf("C12: Close did not return")
+		}
+	}
+	if calls != 1 {
+		return fmt.Errorf("C12: two concurrent Close calls ran the cancel function of node %d %d times, want once", nodes[0].id, calls)
+	}
+	for _, nd := range nodes {
+		nd.connMu.Lock()
+		closed := nd.closed
+		nd.connMu.Unlock()
+		if !closed {
+			return fmt.Errorf("C12: after two concurrent Close calls node %d is not marked closed", nd.id)
+		}
+	}
+	return nil
+}
+
 func TestGvcReplay(t *testing.T) {
 	count := 0
+	for n := 1; n <= 4; n++ {
+		count++
+		if err := h9ConcurrentClose(n); err != nil {
+			t.Fatalf("GVC-REPLAY: the manager life cycle violates its specification.\n  scenario: pool of %d nodes (WithNoConnect); Close is called, and called again from a second goroutine while the first call is inside the first node's cancel function\n  %v", n, err)
+		}
+	}
 	for n := 0; n <= 4; n++ {
 		for cs := 0; cs < 1<<n; cs++ {
 			for closes := 1; closes <= 3; closes++ {
@@ -130,5 +209,5 @@ func TestGvcReplay(t *testing.T) {
 			}
 		}
 	}
-	t.Logf("GVC-REPLAY-OK scenarios=%d bound=\"pools of 0..4 non-connecting nodes; every subset of nodes owning a cancel function; 1..3 Close calls; logger on/off; 0..2 further options\"", count)
+	t.Logf("GVC-REPLAY-OK scenarios=%d bound=\"pools of 0..4 non-connecting nodes; every subset of nodes owning a cancel function; 1..3 Close calls; logger on/off; 0..2 further options; two concurrent Close calls on pools of 1..4\"", count)
 }
